@@ -144,8 +144,13 @@ def run(case, rec):
         k, red = case["k"], case["red"]
         data = np.array([2.0 ** i for i in range(npts)])
         est = vd.KNeighbors(k=k, reduction=getattr(np, red))
-        if raised(call(rec, est.fit, (e, n), data)):
+        e_fit, n_fit, d_fit = e.copy(), n.copy(), data.copy()
+        if raised(call(rec, est.fit, (e_fit, n_fit), d_fit)):
             return rec.check(False, "KNeighbors.fit raised")
+        # the caller reuses its buffers after the fit: the fitted estimator must not depend on them any more (seed C15-8)
+        e_fit[...] = e_fit[::-1].copy() * 3 + 1
+        n_fit[...] = 0
+        d_fit[...] = -7.0
         qe, qn = np.meshgrid(np.array(QE), np.array(QN))
         got = call(rec, est.predict, (qe, qn))
         if raised(got):
